@@ -38,6 +38,10 @@ type repeatCase struct {
 	// RealFile: the reports are written by pprof's own file writer to one real path; between run 0 (fresh file)
 	// and run 1 a longer report (-raw) is written to the same path
 	RealFile bool
+	// SameBase: two shared objects with one base name in different directories, each with an unsymbolized frame
+	// called from one function with equal weight and calling different functions: entries that print alike
+	// ("[libfoo.so]") but are different nodes
+	SameBase bool
 }
 
 var tieOpts = gen.Opts{Alpha: gen.Plain, MaxSamples: 8, MaxDepth: 5, MaxLines: 3, MinTypes: 1, MaxTypes: 2, SmallVals: true, AnyIDs: true, NoHugeIDs: true,
@@ -53,6 +57,11 @@ func genRepeat(t *rapid.T) *repeatCase {
 		c.C.Format = rapid.SampledFrom([]string{"dot", "dot", "callgrind"}).Draw(t, "treefmt")
 	}
 	c.RealFile = rapid.IntRange(0, 3).Draw(t, "realfile") == 0
+	c.SameBase = rapid.IntRange(0, 4).Draw(t, "samebase") == 0
+	if c.SameBase && !c.TreeTie {
+		c.C.Gran = rapid.SampledFrom([]string{"functions", "functions", "filefunctions", "files"}).Draw(t, "samebasegran")
+		c.C.Format = rapid.SampledFrom([]string{"tree", "peek", "dot", "callgrind", "top", "traces"}).Draw(t, "samebasefmt")
+	}
 	c.CaseLabels = rapid.IntRange(0, 2).Draw(t, "caselabels") == 0
 	if c.CaseLabels && !c.TreeTie && rapid.Bool().Draw(t, "caseraw") {
 		c.C.Format = rapid.SampledFrom([]string{"raw", "tags", "proto", "traces"}).Draw(t, "casefmt")
@@ -154,6 +163,36 @@ func tieProfile(c *repeatCase) *profile.Profile {
 				}
 				p.Sample = append(p.Sample, &profile.Sample{Location: st, Value: v})
 			}
+		}
+	}
+	if c.SameBase {
+		var maxF, maxL, maxM uint64
+		for _, f := range p.Function {
+			maxF = max(maxF, f.ID)
+		}
+		for _, l := range p.Location {
+			maxL = max(maxL, l.ID)
+		}
+		for _, m := range p.Mapping {
+			maxM = max(maxM, m.ID)
+		}
+		mainF := &profile.Function{ID: maxF + 11, Name: "dispatch", SystemName: "dispatch", Filename: "d.go"}
+		mainL := &profile.Location{ID: maxL + 11, Address: 0xa00000, Line: []profile.Line{{Function: mainF, Line: 1}}}
+		p.Function = append(p.Function, mainF)
+		p.Location = append(p.Location, mainL)
+		one := make([]int64, len(p.SampleType))
+		for j := range one {
+			one[j] = 3
+		}
+		for i, dir := range []string{"/opt/a/", "/opt/b/"} {
+			m := &profile.Mapping{ID: maxM + 11 + uint64(i), Start: 0x7f0000000000 + uint64(i)*0x10000000, Limit: 0x7f0000001000 + uint64(i)*0x10000000, File: dir + "libfoo.so"}
+			u := &profile.Location{ID: maxL + 12 + uint64(i), Mapping: m, Address: m.Start + 0x10}
+			lf := &profile.Function{ID: maxF + 12 + uint64(i), Name: fmt.Sprintf("callee%d", i), SystemName: fmt.Sprintf("callee%d", i), Filename: "c.go"}
+			ll := &profile.Location{ID: maxL + 14 + uint64(i), Address: 0xa00100 + uint64(i)*16, Line: []profile.Line{{Function: lf, Line: 1}}}
+			p.Mapping = append(p.Mapping, m)
+			p.Function = append(p.Function, lf)
+			p.Location = append(p.Location, u, ll)
+			p.Sample = append(p.Sample, &profile.Sample{Location: []*profile.Location{ll, u, mainL}, Value: append([]int64{}, one...)})
 		}
 	}
 	if c.CaseLabels {
